@@ -1,0 +1,12 @@
+//go:build verif
+
+package main
+
+// Contracts checked by /verif/gvc. Comment-only file (build tag verif).
+
+// constructServer (C09): each metric type's expiry interval is exactly what the configuration holds under that
+// type's key -- a zero (keep for ever) or negative (report once) value included -- and the four do not get mixed up.
+//@ func constructServer
+//@   ensures  [expiry] result1 == nil ==> result0.ExpiryIntervalCounter == viperDuration(v, gostatsd.ParamExpiryIntervalCounter) && result0.ExpiryIntervalGauge == viperDuration(v, gostatsd.ParamExpiryIntervalGauge)
+//@   ensures  [expiry] result1 == nil ==> result0.ExpiryIntervalSet == viperDuration(v, gostatsd.ParamExpiryIntervalSet) && result0.ExpiryIntervalTimer == viperDuration(v, gostatsd.ParamExpiryIntervalTimer)
+//@   modifies everything
